@@ -401,6 +401,7 @@ const char *const FAULT_CLASSES[] = {
     "dup-segment-address", "dup-reverser-cv", "dcc-address-shared", "dup-aspect-id", "dup-aspect-value",
     "initial-undeclared", "accessory-without-aspects", "calibration-not-9-values", "calibration-value>126",
     "bad-speed-steps", "function-bit>31", "dup-function-bit", "track-board-not-in-board-file", "malformed-value",
+    "train-peripheral-incomplete",
 };
 const int N_FAULT_CLASSES = sizeof FAULT_CLASSES / sizeof *FAULT_CLASSES;
 
@@ -578,6 +579,28 @@ Faulted inject_fault(const Config &orig, int cls, DP &dp) {
 			f.cls = name;
 			return f;
 		}
+	} else if (name == "train-peripheral-incomplete") {
+		// textual: one function mapping of a train loses its bit, its id, or everything
+		f.board = c.board_yaml();
+		f.track = c.track_yaml();
+		f.train = c.train_yaml();
+		std::vector<size_t> pos;
+		for (size_t p = f.train.find("      - id: "); p != std::string::npos; p = f.train.find("      - id: ", p + 1))
+			if (f.train.compare(f.train.find('\n', p) + 1, 13, "        bit: ") == 0) pos.push_back(p);
+		if (pos.empty()) return f;
+		size_t p = pos[dp.pick((unsigned) pos.size())];
+		size_t id_end = f.train.find('\n', p) + 1, bit_end = f.train.find('\n', id_end) + 1;
+		switch (dp.pick(3)) {
+		case 0: f.train.erase(id_end, bit_end - id_end); break;                                            // no bit
+		case 1: f.train.replace(p, bit_end - p, "      - " + f.train.substr(id_end + 8, bit_end - id_end - 8)); break;   // no id
+		default: {                                                                                        // an empty record
+			size_t rec_end = bit_end;
+			if (f.train.compare(rec_end, 17, "        initial: ") == 0) rec_end = f.train.find('\n', rec_end) + 1;
+			f.train.replace(p, rec_end - p, "      - {}\n");
+		}
+		}
+		f.cls = name;
+		return f;
 	} else if (name == "malformed-value") {
 		// textual: replace one numeric token by a malformed one
 		f.board = c.board_yaml();
